@@ -81,3 +81,20 @@ Definition d_hole : osm :=
      relations := [ {| r_id := 1; r_members := [mw 1 "outer"; mw 2 "outer"; mw 3 "inner"];
                        r_tags := [("type", "multipolygon"); ("natural", "water")]; r_meta := meta0 |} ] |}.
 Definition r_hole : relation := hd {| r_id := 0; r_members := []; r_tags := []; r_meta := meta0 |} (relations d_hole).
+
+(* harness corpus polyNegativeID(): a tagged multipolygon relation with id -1 (an editor object
+   that is not uploaded yet) over the closed way 10.  buildPolygon reads type and ref back out of
+   the packed FeatureID: type "", id 2^40-1. *)
+Definition d_polyneg : osm :=
+  {| nodes := [nd 1 1 1; nd 2 5 1; nd 3 5 5; nd 4 1 5];
+     ways := [wy 10 [] false [1; 2; 3; 4; 1]];
+     relations := [ {| r_id := -1; r_members := [mw 10 "outer"];
+                       r_tags := [("type", "multipolygon"); ("natural", "water")]; r_meta := meta0 |} ] |}.
+
+(* harness corpus keyClash(): way -1 is a member of route relation 5; node -1, an untagged node of
+   that way, is not a member of anything — but NodeID(-1).FeatureID() = WayID(-1).FeatureID() *)
+Definition d_clash : osm :=
+  {| nodes := [nd 1 1 1; nd 2 5 1; nd (-1) 9 9];
+     ways := [wy (-1) [] false [1; 2; -1]];
+     relations := [ {| r_id := 5; r_members := [mw (-1) "forward"];
+                       r_tags := [("type", "route")]; r_meta := meta0 |} ] |}.
